@@ -38,43 +38,43 @@ fn step(tag: u8, elen: usize, plen: usize) {
     sym::forget(r);
 }
 
-// @h prop=C07 tier=quick kind=proof inst="CodecRegion<DictionaryCodec>, one entry of 2 symbolic bytes at tag 0" bounds="one push of any 2 bytes (all 256 first-byte values, incl. equal to the entry / starting with the tag)" desc="exact bytes back or refusal; the entry costs 1 byte"
+// @h prop=C07 tier=quick kind=proof allow="cannot represent a literal" inst="CodecRegion<DictionaryCodec>, one entry of 2 symbolic bytes at tag 0" bounds="one push of any 2 bytes (all 256 first-byte values, incl. equal to the entry / starting with the tag)" desc="exact bytes back or refusal; the entry costs 1 byte"
 #[cfg_attr(kani, kani::proof, kani::unwind(6))]
 pub fn c07_step_tag0_e2_p2() {
     step(0, 2, 2);
 }
 
-// @h prop=C07 tier=quick kind=proof inst="CodecRegion<DictionaryCodec>, one entry of 2 symbolic bytes at tag 0" bounds="one push of any single byte" desc="exact bytes back or refusal (a one-byte literal equal to the tag must not read back as the entry)"
+// @h prop=C07 tier=quick kind=proof allow="cannot represent a literal" inst="CodecRegion<DictionaryCodec>, one entry of 2 symbolic bytes at tag 0" bounds="one push of any single byte" desc="exact bytes back or refusal (a one-byte literal equal to the tag must not read back as the entry)"
 #[cfg_attr(kani, kani::proof, kani::unwind(6))]
 pub fn c07_step_tag0_e2_p1() {
     step(0, 2, 1);
 }
 
-// @h prop=C07 tier=quick kind=proof inst="CodecRegion<DictionaryCodec>, one entry of 1 symbolic byte at tag 2" bounds="one push of any 3 bytes" desc="exact bytes back or refusal; tags 0,1 unassigned"
+// @h prop=C07 tier=quick kind=proof allow="cannot represent a literal" inst="CodecRegion<DictionaryCodec>, one entry of 1 symbolic byte at tag 2" bounds="one push of any 3 bytes" desc="exact bytes back or refusal; tags 0,1 unassigned"
 #[cfg_attr(kani, kani::proof, kani::unwind(6))]
 pub fn c07_step_tag2_e1_p3() {
     step(2, 1, 3);
 }
 
-// @h prop=C07 tier=quick kind=proof inst="CodecRegion<DictionaryCodec>, one entry of 2 symbolic bytes at tag 1" bounds="one push of the empty byte string" desc="the empty string reads back as the empty string"
+// @h prop=C07 tier=quick kind=proof allow="cannot represent a literal" inst="CodecRegion<DictionaryCodec>, one entry of 2 symbolic bytes at tag 1" bounds="one push of the empty byte string" desc="the empty string reads back as the empty string"
 #[cfg_attr(kani, kani::proof, kani::unwind(6))]
 pub fn c07_step_empty_string() {
     step(1, 2, 0);
 }
 
-// @h prop=C07 tier=thorough kind=proof inst="CodecRegion<DictionaryCodec>, one entry of 1 symbolic byte at tag 1" bounds="one push of any 1 byte" desc="exact bytes back or refusal"
+// @h prop=C07 tier=thorough kind=proof allow="cannot represent a literal" inst="CodecRegion<DictionaryCodec>, one entry of 1 symbolic byte at tag 1" bounds="one push of any 1 byte" desc="exact bytes back or refusal"
 #[cfg_attr(kani, kani::proof, kani::unwind(6))]
 pub fn c07_step_tag1_e1_p1() {
     step(1, 1, 1);
 }
 
-// @h prop=C07 tier=thorough kind=proof inst="CodecRegion<DictionaryCodec>, one entry of 2 symbolic bytes at tag 2" bounds="one push of any 2 bytes" desc="exact bytes back or refusal"
+// @h prop=C07 tier=thorough kind=proof allow="cannot represent a literal" inst="CodecRegion<DictionaryCodec>, one entry of 2 symbolic bytes at tag 2" bounds="one push of any 2 bytes" desc="exact bytes back or refusal"
 #[cfg_attr(kani, kani::proof, kani::unwind(6))]
 pub fn c07_step_tag2_e2_p2() {
     step(2, 2, 2);
 }
 
-// @h prop=C07 tier=quick kind=proof inst="CodecRegion<DictionaryCodec>, one entry of 2 symbolic bytes at tag 0" bounds="two pushes: the entry itself, then any 2 bytes; first re-read after the second" desc="append-only across literal and coded items; clear then behaves as a fresh region"
+// @h prop=C07 tier=quick kind=proof allow="cannot represent a literal" inst="CodecRegion<DictionaryCodec>, one entry of 2 symbolic bytes at tag 0" bounds="two pushes: the entry itself, then any 2 bytes; first re-read after the second" desc="append-only across literal and coded items; clear then behaves as a fresh region"
 #[cfg_attr(kani, kani::proof, kani::unwind(6))]
 pub fn c07_two_pushes_then_clear() {
     let (mut r, e) = region_with_entry(0, 2);
